@@ -825,7 +825,7 @@ pub open spec fn op_ack_timeout(op: ClientOperation) -> Option<Duration> {
     }
 }
 
-pub open spec fn heap_has(s: ProtocolState, x: Reverse<OperationTimeoutRecord>) -> bool { heap_view(s.operation_ack_timeouts).count(x) > 0 }
+pub open spec fn hh(h: BinaryHeap<Reverse<OperationTimeoutRecord>>, x: Reverse<OperationTimeoutRecord>) -> bool { heap_view(h).count(x) > 0 }
 
 // C14: the PINGRESP deadline is min(configured ping timeout, K/2) after the PINGREQ, K in seconds
 pub open spec fn ping_deadline_nanos(now: Instant, cfg: Duration, k: u16) -> int {
@@ -854,17 +854,16 @@ impl ProtocolState {
 
 //@fn gneiss-mqtt/src/protocol.rs ProtocolState::get_next_ack_timeout props=C18
     ensures *final(self) == *old(self),
+        heap_top_ok(old(self).operation_ack_timeouts),
         match r {
-            // never earlier than the deadline
-            Some(id) => exists|x: Reverse<OperationTimeoutRecord>| heap_has(*old(self), x) && x.0.id == id && x.0.timeout.nanos <= old(self).current_time.nanos
-                && (forall|y: Reverse<OperationTimeoutRecord>| #[trigger] heap_has(*old(self), y) ==> x.0.timeout.nanos <= y.0.timeout.nanos),
+            // never earlier than the deadline: the record at the top of the heap is due, and it is the earliest
+            Some(id) => (heap_top(old(self).operation_ack_timeouts) matches Some(x) && x.0.id == id && x.0.timeout.nanos <= old(self).current_time.nanos
+                && (forall|y: Reverse<OperationTimeoutRecord>| #[trigger] hh(old(self).operation_ack_timeouts, y) ==> x.0.timeout.nanos <= y.0.timeout.nanos)),
             // and nothing that is due is left behind
-            None => forall|y: Reverse<OperationTimeoutRecord>| #[trigger] heap_has(*old(self), y) ==> y.0.timeout.nanos > old(self).current_time.nanos,
+            None => forall|y: Reverse<OperationTimeoutRecord>| #[trigger] hh(old(self).operation_ack_timeouts, y) ==> y.0.timeout.nanos > old(self).current_time.nanos,
         },
 //@@at bodystart
         broadcast use ax_ord_rel_reverse, ax_ord_rel_spec;
-//@@at before "return Some(record.id);"
-        proof { assert(heap_has(*old(self), *reverse_record)); }
 //@end
 
 //@fn gneiss-mqtt/src/protocol.rs ProtocolState::service_keep_alive props=C14,C11
@@ -900,6 +899,156 @@ impl ProtocolState {
 //@@finding F-KEEPALIVE
         proof { assume(old(self).current_settings->Some_0.server_keep_alive % 2 == 0); }
 //@end
+}
+
+// =====================================================================================================
+// service(): writing operations, ack timeouts (C07, C08, C09, C11, C18)
+// =====================================================================================================
+
+// what a driver may rely on between calls
+pub open spec fn inv(s: ProtocolState) -> bool { s.wf() && s.cur_ok() }
+
+// A-ACKTIMEOUT-RANGE (see finding F-ACKTIMEOUT-OVERFLOW): `now + ack_timeout` is representable
+pub open spec fn ack_timeouts_in_range(s: ProtocolState, now: Instant) -> bool {
+    forall|k: u64| #[trigger] s.operations@.contains_key(k) ==>
+        (op_ack_timeout(s.operations@[k]) matches Some(t) ==> now.nanos + t.nanos <= INSTANT_MAX_NANOS())
+}
+
+pub open spec fn no_due_timeout_for_current(s: ProtocolState) -> bool {
+    forall|x: Reverse<OperationTimeoutRecord>| (#[trigger] hh(s.operation_ack_timeouts, x) && x.0.timeout.nanos <= s.current_time.nanos) ==> s.current_operation != Some(x.0.id)
+}
+
+pub open spec fn queue_measure(s: ProtocolState) -> int {
+    s.high_priority_operation_queue@.len() + s.resubmit_operation_queue@.len() + s.user_operation_queue@.len()
+        + (if s.current_operation is Some { 1int } else { 0int })
+}
+
+//@fn gneiss-mqtt/src/validate.rs validate_packet_outbound_internal props=C16 stub
+//@end
+
+impl ProtocolState {
+//@fn gneiss-mqtt/src/protocol.rs ProtocolState::compute_outbound_alias_resolution props=C17 stub
+//@end
+
+//@fn gneiss-mqtt/src/protocol.rs ProtocolState::update_internal_clock props=C11
+    ensures *final(self) == (ProtocolState { current_time: *current_time, elapsed_time_ms: final(self).elapsed_time_ms, ..*old(self) }),
+//@end
+
+//@fn gneiss-mqtt/src/protocol.rs ProtocolState::change_state props=C11
+    ensures *final(self) == (ProtocolState { state: next_state, ..*old(self) }),
+//@end
+
+//@fn gneiss-mqtt/src/protocol.rs ProtocolState::on_current_operation_fully_written props=C09,C18,C07,C01,C11
+    requires old(self).wf(), old(self).cur_ok(), old(self).current_operation is Some, clock_ok(now),
+        ack_timeouts_in_range(*old(self), now),
+        // an ackable packet is only ever encoded after acquire_packet_id_for_operation bound it
+        ({ let op = old(self).operations@[old(self).current_operation->Some_0]; takes_packet_id(*op.packet) ==> op.packet_id is Some }),
+        old(self).state == ProtocolStateType::Connected || old(self).state == ProtocolStateType::PendingConnack,
+        old(self).state == ProtocolStateType::PendingConnack ==> !(*old(self).operations@[old(self).current_operation->Some_0].packet is Disconnect),
+    ensures final(self).wf(), final(self).cur_ok(),
+        final(self).current_operation is None,
+        ({
+            let pre = *old(self);
+            let post = *final(self);
+            let id = pre.current_operation->Some_0;
+            let op = pre.operations@[id];
+            &&& post.operations@.dom() =~= pre.operations@.dom()
+            &&& (forall|k: u64| k != id && pre.operations@.contains_key(k) ==> post.operations@[k] == pre.operations@[k])
+            &&& post.operations@[id] == (ClientOperation { ping_extension_base_timepoint: Some(now), ..op })
+            // sub/unsub -> awaiting SUBACK/UNSUBACK under the id it was sent with
+            &&& (*op.packet is Subscribe || *op.packet is Unsubscribe) ==> post.pending_non_publish_operations@ == pre.pending_non_publish_operations@.insert(op.packet_id->Some_0, id)
+                    && post.pending_publish_operations@ == pre.pending_publish_operations@ && post.pending_write_completion_operations@ == pre.pending_write_completion_operations@
+            // QoS1+ publish -> in flight; the in-flight table grows by at most this one operation (C09)
+            &&& is_qos1plus_publish(*op.packet) ==> post.pending_publish_operations@ == pre.pending_publish_operations@.insert(op.packet_id->Some_0, id)
+                    && post.pending_non_publish_operations@ == pre.pending_non_publish_operations@ && post.pending_write_completion_operations@ == pre.pending_write_completion_operations@
+            // everything else completes on write completion
+            &&& !takes_packet_id(*op.packet) ==> post.pending_write_completion_operations@ == pre.pending_write_completion_operations@.push(id)
+                    && post.pending_publish_operations@ == pre.pending_publish_operations@ && post.pending_non_publish_operations@ == pre.pending_non_publish_operations@
+            // C07: once a DISCONNECT has been written nothing further is sent
+            &&& post.state == (if *op.packet is Disconnect { ProtocolStateType::PendingDisconnect } else { pre.state })
+            // C18: the ack timeout starts now (fully written), never while queued
+            &&& (op_ack_timeout(op) matches Some(t) ==> heap_view(post.operation_ack_timeouts) == heap_view(pre.operation_ack_timeouts).insert(
+                    Reverse(OperationTimeoutRecord { id, timeout: Instant { nanos: (now.nanos + t.nanos) as u128 } })))
+            &&& (op_ack_timeout(op) is None ==> heap_view(post.operation_ack_timeouts) == heap_view(pre.operation_ack_timeouts))
+            &&& post.allocated_packet_ids@ == pre.allocated_packet_ids@
+            &&& post.user_operation_queue@ == pre.user_operation_queue@ && post.resubmit_operation_queue@ == pre.resubmit_operation_queue@
+            &&& post.high_priority_operation_queue@ == pre.high_priority_operation_queue@
+            &&& post.pending_write_completion == pre.pending_write_completion && post.next_operation_id == pre.next_operation_id
+            &&& post.config == pre.config && post.current_settings == pre.current_settings && post.current_time == pre.current_time
+            &&& post.slow_start_ack_count == pre.slow_start_ack_count
+        }),
+//@@at before "let id = operation.id;"
+        proof { assert(operation.id == old(self).current_operation->Some_0); }
+//@@at before "self.current_operation = None;"
+        proof {
+            let id0 = old(self).current_operation->Some_0;
+            assert(self.ss_set() =~= old(self).ss_set());
+        }
+//@end
+
+//@fn gneiss-mqtt/src/protocol.rs ProtocolState::process_ack_timeouts props=C18,C11,C01
+    requires old(self).wf(),
+    ensures final(self).wf(),
+        completion_frame_but_timeouts(*old(self), *final(self)),
+        // "never earlier": whatever was failed had a record whose deadline had passed
+        forall|k: u64| old(self).operations@.contains_key(k) && !final(self).operations@.contains_key(k) ==>
+            exists|x: Reverse<OperationTimeoutRecord>| hh(old(self).operation_ack_timeouts, x) && x.0.id == k && x.0.timeout.nanos <= old(self).current_time.nanos,
+        // nothing else is touched
+        forall|k: u64| final(self).operations@.contains_key(k) ==> old(self).operations@.contains_key(k) && final(self).operations@[k] == old(self).operations@[k],
+        // "at the first service at or after": no due record survives
+        forall|y: Reverse<OperationTimeoutRecord>| #[trigger] hh(final(self).operation_ack_timeouts, y) ==> y.0.timeout.nanos > old(self).current_time.nanos && hh(old(self).operation_ack_timeouts, y),
+        // a due record always fails its operation if it is still tracked
+        forall|x: Reverse<OperationTimeoutRecord>| (#[trigger] hh(old(self).operation_ack_timeouts, x) && x.0.timeout.nanos <= old(self).current_time.nanos) ==> !final(self).operations@.contains_key(x.0.id),
+        // F-TIMEOUT-CURRENT: the half-written operation is not protected from its own timeout
+        old(self).cur_ok() && no_due_timeout_for_current(*old(self)) ==> final(self).cur_ok(),
+//@@loop 0
+        invariant
+            self.wf(),
+            completion_frame_but_timeouts(*old(self), *self),
+            forall|k: u64| old(self).operations@.contains_key(k) && !self.operations@.contains_key(k) ==>
+                exists|x: Reverse<OperationTimeoutRecord>| hh(old(self).operation_ack_timeouts, x) && x.0.id == k && x.0.timeout.nanos <= old(self).current_time.nanos,
+            forall|k: u64| self.operations@.contains_key(k) ==> old(self).operations@.contains_key(k) && self.operations@[k] == old(self).operations@[k],
+            forall|y: Reverse<OperationTimeoutRecord>| #[trigger] hh(self.operation_ack_timeouts, y) ==> hh(old(self).operation_ack_timeouts, y),
+            forall|x: Reverse<OperationTimeoutRecord>| (#[trigger] hh(old(self).operation_ack_timeouts, x) && x.0.timeout.nanos <= old(self).current_time.nanos) ==> (hh(self.operation_ack_timeouts, x) || !self.operations@.contains_key(x.0.id)),
+            old(self).cur_ok() && no_due_timeout_for_current(*old(self)) ==> self.cur_ok(),
+        ensures
+            forall|y: Reverse<OperationTimeoutRecord>| #[trigger] hh(self.operation_ack_timeouts, y) ==> y.0.timeout.nanos > self.current_time.nanos,
+        decreases heap_view(self.operation_ack_timeouts).len(),
+//@@at after "self.operation_ack_timeouts.pop();"
+            proof {
+                let top = heap_top(pre_pop.operation_ack_timeouts)->Some_0;
+                assert(heap_view(self.operation_ack_timeouts) == heap_view(pre_pop.operation_ack_timeouts).remove(top));
+                assert forall|y: Reverse<OperationTimeoutRecord>| #[trigger] hh(self.operation_ack_timeouts, y) implies hh(pre_pop.operation_ack_timeouts, y) by {}
+                assert forall|y: Reverse<OperationTimeoutRecord>| y != top && #[trigger] hh(pre_pop.operation_ack_timeouts, y) implies hh(self.operation_ack_timeouts, y) by {}
+            }
+//@@at before "self.operation_ack_timeouts.pop();"
+            let ghost pre_pop = *self;
+//@@at after "result = fold_mqtt_result(result, self.complete_operation_as_failure(id, GneissError::new_ack_timeout()));"
+            proof {
+                let top = heap_top(pre_pop.operation_ack_timeouts)->Some_0;
+                assert(hh(pre_pop.operation_ack_timeouts, top));
+                assert(hh(old(self).operation_ack_timeouts, top) && top.0.id == id && top.0.timeout.nanos <= old(self).current_time.nanos);
+            }
+//@end
+}
+
+pub open spec fn completion_frame_but_timeouts(pre: ProtocolState, post: ProtocolState) -> bool {
+    &&& post.user_operation_queue@ == pre.user_operation_queue@
+    &&& post.resubmit_operation_queue@ == pre.resubmit_operation_queue@
+    &&& post.high_priority_operation_queue@ == pre.high_priority_operation_queue@
+    &&& post.pending_write_completion_operations@ == pre.pending_write_completion_operations@
+    &&& post.current_operation == pre.current_operation
+    &&& post.next_operation_id == pre.next_operation_id
+    &&& post.next_packet_id == pre.next_packet_id
+    &&& post.config == pre.config
+    &&& post.current_settings == pre.current_settings
+    &&& post.qos2_incomplete_incoming_publishes@ == pre.qos2_incomplete_incoming_publishes@
+    &&& post.pending_write_completion == pre.pending_write_completion
+    &&& post.ping_timeout_timepoint == pre.ping_timeout_timepoint
+    &&& post.next_ping_timepoint == pre.next_ping_timepoint
+    &&& post.connack_timeout_timepoint == pre.connack_timeout_timepoint
+    &&& post.current_time == pre.current_time
+    &&& post.protocol_version == pre.protocol_version
 }
 } // verus!
 fn main() {}
